@@ -31,7 +31,8 @@ LEVEL_TEXT = ('Exploration with an exhaustive grid: 2^4 FIN/RSV combinations x 1
               'delivered to on_websocket_message must equal an independent decoding of that read, and the 101 reply '
               'must carry the RFC accept token.')
 LEVEL_NOTE = 'Trusted: the reference encoder in this file (written from RFC 6455 5.2, validated against the RFC accept-token vector and a hand-encoded frame).'
-TECHNIQUE = 'runtime contracts (icontract postconditions) on WebsocketFrame.build/parse/key_to_accept vs an independent RFC 6455 codec'
+TECHNIQUE = ('runtime contracts (icontract postconditions) on WebsocketFrame.build/parse/key_to_accept vs an independent RFC 6455 codec; '
+             'per-read monitor of the frames the web server hands to a websocket route')
 RULE = ('case = (payload length, masking variant, trailing-bytes kind) over a block of flag x opcode combinations; '
         'non-trivial = payload length > 0 or masked; distinct = (length, variant, trailing kind, block)')
 ASSUMPTIONS = ['masking keys are supplied explicitly (a frame built without a key draws a random one and cannot be compared byte for byte)']
